@@ -1,3 +1,3 @@
 import CobaVerif.Driver.Loop
--- stub: replaced when the C07 model exists
-def main : IO Unit := Coba.J.runLoop (fun _ => .error "C07 driver not implemented")
+import CobaVerif.Driver.C07
+def main : IO Unit := Coba.J.runLoop Coba.C07.Driver.handle
